@@ -64,10 +64,11 @@ def cases(tier, seed):
     # with values needing the wide one, through save_merge_ds
     for eng in ("h5netcdf", "joblib"):
         for cdt in ("float32", "int32", "int64", "str", "strvar"):
-            for name in NAMES[:3]:
+            for ni, name in enumerate(NAMES[:3]):
+                # (the data is disjoint: every overwrite policy keeps all)
                 yield {"op": "merge-widen", "engine": eng, "cdt": cdt,
                        "name": name, "sizes": [2], "vdt": "float",
-                       "chunks": None}
+                       "chunks": None, "ow": [None, True, False][ni]}
 
 
 def worker_init():
@@ -205,7 +206,7 @@ def check_widen(case):
             want = {1: "p", 2: "q", 3: "long"}
         try:
             xyz.save_ds(ds1, name, engine=eng)
-            xyz.save_merge_ds(ds2, name, engine=eng)
+            xyz.save_merge_ds(ds2, name, engine=eng, overwrite=case.get("ow"))
             back = xyz.load_ds(name, engine=eng)
             got = dict(zip(back["a"].values.tolist(),
                            back["v"].values.tolist()))
@@ -228,7 +229,7 @@ def check_widen(case):
     try:
         xyz.save_ds(ds1, name, engine=eng)
         # (through a loaded copy, as a later session would)
-        xyz.save_merge_ds(ds2, name, engine=eng)
+        xyz.save_merge_ds(ds2, name, engine=eng, overwrite=case.get("ow"))
         back = xyz.load_ds(name, engine=eng)
         want = {float(k_): v_ for k_, v_ in zip(
             list(a1.tolist()) + list(a2.tolist()), [10.0, 20.0, 30.0, 40.0])}
@@ -260,6 +261,12 @@ def check_case(case):
     vio = []
     ext = {"h5netcdf": ".h5", "joblib": ".dmp"}[eng]
     base = os.path.basename(case["name"])
+    dname = os.path.dirname(name)
+    if core.pick([case["name"], case["sizes"], case["vdt"], case["op"],
+                  "bare"], 4) == 0:
+        # the user sits in the directory and gives the bare name
+        os.chdir(dname)
+        name = base
     want_file = base if (".h5" in base or ".dmp" in base) else base + ext
     chunks = case["chunks"]
     if chunks == "dict":
@@ -271,7 +278,7 @@ def check_case(case):
     decoy = []
 
     def listing():
-        return sorted(x for x in os.listdir(os.path.dirname(name))
+        return sorted(x for x in os.listdir(dname)
                       if x not in decoy)
 
     try:
@@ -281,7 +288,7 @@ def check_case(case):
                 # another, older dataset lies under exactly the bare name
                 # (the name given always means name + extension)
                 old = xr.Dataset({"other": (("q",), [7.0, 8.0, 9.0])})
-                tmpn = os.path.join(os.path.dirname(name), "decoy" + ext)
+                tmpn = os.path.join(dname, "decoy" + ext)
                 xyz.save_ds(old, tmpn, engine=eng)
                 os.rename(tmpn, name)
                 decoy.append(base)
